@@ -519,10 +519,13 @@ class Run:
             "wall_s": round(time.time() - self.t0, 2),
             "violations": len(violations),
         }
-        os.makedirs(os.path.join(VERIF, "evidence"), exist_ok=True)
-        tmp = os.path.join(VERIF, "evidence", self.prop + ".json.tmp")
+        # evidence/ describes runs against /repo itself; runs pointed at another tree (seeded changes,
+        # pre-fix trees) leave theirs in the run directory
+        evdir = os.path.join(VERIF, "evidence") if REPO == "/repo" else self.rundir
+        os.makedirs(evdir, exist_ok=True)
+        tmp = os.path.join(evdir, self.prop + ".json.tmp")
         json.dump(ev, open(tmp, "w"), indent=1, default=str)
-        os.replace(tmp, os.path.join(VERIF, "evidence", self.prop + ".json"))
+        os.replace(tmp, os.path.join(evdir, self.prop + ".json"))
 
     def do_replay(self):
         body = json.load(open(self.replay))
